@@ -14,7 +14,7 @@ func init() {
 		Run: runC05,
 		Decided: "the value datastore handle is mutated only by ValueStore.Put (Put) and discardIfUnchanged (Delete) (R1); the write in Put lies behind a successful Validate(key, rec value), under the key's striped lock, and behind 'nothing stored or Select(key,{new,existing}) == 0', with the existing record read under the same lock and validated under its own key (R2); " +
 			"the delete in discardIfUnchanged is under the same striped lock behind bytes.Equal(current, seen), and every caller passes the datastore key derived from the record key it passes (R3); Get returns a record only behind the key check and the age check, expired() has the right polarity and treats an unparsable time as expired (R4); " +
-			"every caller stores a record under its own key (R5); the PUT_VALUE handler's guards (R6); local PutValue validates, refuses a worse value, and putLocal forwards the store's error (R7); the sweep deletes only through discardIfUnchanged behind its ownership and expiry tests (R8).",
+			"every caller stores a record under its own key (R5); the PUT_VALUE handler's guards (R6); local PutValue validates, refuses a worse value, and putLocal forwards the store's error (R7); the sweep deletes only through discardIfUnchanged behind its ownership and expiry tests (R8). Added after the seeded rounds: every return of ValueStore.Put that may carry a nil error is the write's own result or lies behind its success (R2); the lookup of PutValue lies on the nil-error edge of the local store, whatever the error test looks like (R7).",
 		NotDecided: "linearizability of interleavings as histories (R2/R3 give mutual exclusion of read-select-write per key stripe, for all schedules); clock arithmetic; the datastore's own atomicity.",
 	})
 }
